@@ -150,6 +150,8 @@ fn family_f1() -> Vec<Scenario> {
                 vec![2, 5],
             ),
         ];
+        let mut variants = variants;
+        variants.push(("root-origin", vec![Item::Origin(wname(".")), Item::Rec(anchor.clone()), Item::Rec(r.clone()), Item::Rec(trailer.clone())], vec![1, 3]));
         for (vn, items, reduced) in variants {
             out.push(Scenario { name: format!("F1/m{mi}/{vn}"), items, reduced });
         }
@@ -351,6 +353,22 @@ pub fn run(ctx: &'static Ctx) -> ! {
         watch::finish_static(ctx, "exploration", RULE, false);
     }
     let fams = families(ctx.quick());
+    if let Ok(name) = std::env::var("QVERIF_DUMP") {
+        // audit aid: print every <= 1-deviation rendering of one scenario
+        for f in &fams {
+            for sc in f.scenarios.iter().filter(|s| s.name == name) {
+                let cps = choice_points(sc);
+                for first in std::iter::once(None).chain((0..cps.len()).map(Some)) {
+                    for_each_choice_set(&cps, first, 1, &mut |ch: &Choices| {
+                        if let Some(r) = render(sc, ch) {
+                            println!("--- {} {:?}\n{}", sc.name, ch.0, String::from_utf8_lossy(&r.bytes));
+                        }
+                    });
+                }
+            }
+        }
+        std::process::exit(0);
+    }
     let mut shards = Vec::new();
     let mut cps_of: Vec<Vec<Vec<CpInfo>>> = Vec::new();
     for (fi, f) in fams.iter().enumerate() {
@@ -396,10 +414,10 @@ pub fn run(ctx: &'static Ctx) -> ! {
                 let mut real = 0;
                 for (k, _) in &mism {
                     if k == "wks-bitmap-lsb-first" {
-                        l.violation(k, case_json(sc, ch, &r, &mism, &got));
+                        crate::report(l, k, || case_json(sc, ch, &r, &mism, &got));
                     } else {
                         real += 1;
-                        l.violation(&format!("{k}/{}:{ks}", ch.0.len()), case_json(sc, ch, &r, &mism, &got));
+                        crate::report(l, &format!("{k}/{}:{ks}", ch.0.len()), || case_json(sc, ch, &r, &mism, &got));
                     }
                 }
                 let cls = if real == 0 { format!("known-wks {}", fam.name) } else { format!("MISMATCH {}", mism[0].0) };
